@@ -76,7 +76,7 @@ Definition chk_codecs (k : N) : bool :=
                     | Some c => implb (can_decode_dataset c) (negb (t_dec r =? L_NONE) && negb (t_enc r =? L_NONE))
                     | None => false end) (observed k).
 (** capability answers = the model's function of the codec; codecs handed out = (byte order, explicitness) *)
-Definition chk_consistent (k : N) : bool := forallb row_consistent (observed k).
+Definition chk_consistent (k : N) : bool := forallb row_consistent (observed k) && forallb row_consistent (declared k).
 Definition chk_nonempty (k : N) : bool := negb (N.of_nat (length (observed k)) <? 46).
 
 Definition chk_all : bool :=
@@ -149,17 +149,30 @@ Proof.
   rewrite andb_true_iff, !negb_true_iff, !N.eqb_neq in C. exact C.
 Qed.
 
-Theorem capabilities k r : In k FS -> In r (observed k) ->
+Lemma consistent_rows k : In k FS -> forallb row_consistent (observed k) = true /\ forallb row_consistent (declared k) = true.
+Proof.
+  intros H. pose proof all_ok as A. unfold chk_all in A. pose proof (proj1 (forallb_forall _ _) A k H) as B. cbn beta in B.
+  rewrite !andb_true_iff in B. destruct B as [[_ B] _]. unfold chk_consistent in B. rewrite andb_true_iff in B. exact B.
+Qed.
+Lemma row_consistent_spec r : row_consistent r = true ->
   exists c, codec_of (t_codec r) = Some c /\ t_q r = answers c /\
             t_pdr r = pixel_data_reader c /\ t_pdw r = pixel_data_writer c /\
             t_dec r = dataset_codec (t_big r) (row_explicit r) /\ t_enc r = dataset_codec (t_big r) (row_explicit r).
 Proof.
-  intros H Hr. pose proof all_ok as A. unfold chk_all in A. pose proof (proj1 (forallb_forall _ _) A k H) as B. cbn beta in B.
-  rewrite !andb_true_iff in B. destruct B as [[_ B] _].
-  pose proof (proj1 (forallb_forall _ _) B r Hr) as C. unfold row_consistent in C.
-  destruct (codec_of (t_codec r)) as [c|]; [|discriminate]. exists c. split; [reflexivity|].
+  unfold row_consistent. intros C. destruct (codec_of (t_codec r)) as [c|]; [|discriminate]. exists c. split; [reflexivity|].
   rewrite !andb_true_iff, bool_list_eqb_eq, !Bool.eqb_true_iff, !N.eqb_eq in C. tauto.
 Qed.
+Theorem capabilities k r : In k FS -> In r (observed k) \/ In r (declared k) ->
+  exists c, codec_of (t_codec r) = Some c /\ t_q r = answers c /\
+            t_pdr r = pixel_data_reader c /\ t_pdw r = pixel_data_writer c /\
+            t_dec r = dataset_codec (t_big r) (row_explicit r) /\ t_enc r = dataset_codec (t_big r) (row_explicit r).
+Proof.
+  intros H Hr. destruct (consistent_rows k H) as [B1 B2]. apply row_consistent_spec.
+  destruct Hr as [Hr|Hr]; [exact (proj1 (forallb_forall _ _) B1 r Hr)|exact (proj1 (forallb_forall _ _) B2 r Hr)].
+Qed.
+(** every codec kind occurs among the declared descriptors of feature set 1 *)
+Lemma all_codec_kinds_declared : forallb (fun c => existsb (fun r => t_codec r =? c) (declared 1)) [0;1;2;3;4;5;6] = true.
+Proof. vm_compute. reflexivity. Qed.
 
 Theorem registry_size k : In k FS -> (46 <= length (observed k))%nat.
 Proof. intros H. destruct (fs_cases k H) as [->| ->]; vm_compute; repeat constructor. Qed.
